@@ -48,8 +48,10 @@ fn judge(c: &Content, t: &mut Tally, with_layouts: bool) -> Option<(String, Stri
             if p.data_size % 4 != c.size() % 4 {
                 return Some((sig("image-alignment", c), "tables are not word-aligned although the data is".into()));
             }
-            if p.content.strings != m.strings || p.content.pointers != m.pointers || p.content.labels != m.labels {
-                return Some((sig("image-content", c), format!("reference parser reads different content from the image: strings {:?} pointers {:?} labels {:?}", p.content.strings, p.content.pointers, p.content.labels)));
+            // (the order of the c-string pool is left open)
+            let dm = ref_bin::diff_materialised(&p.content.data, &p.content.strings, &p.content.pointers, c);
+            if !dm.is_empty() || p.content.labels != m.labels {
+                return Some((sig("image-content", c), format!("reference parser reads different content from the image: {}; strings {:?} pointers {:?} labels {:?}", dm.join("; "), p.content.strings, p.content.pointers, p.content.labels)));
             }
         }
     }
